@@ -414,6 +414,23 @@ def _refusals_in_verifier(chk, ctx, disc) -> None:
                 bad.append(n)
             if isinstance(n, ast.Call) and isinstance(n.func, ast.Name) and n.func.id == 'warn':
                 bad.append(n)
+        # ... nor do the private helpers it does its work with (consuming cards, mucking, popping the actor): they run after the
+        # first write.  Phase steps (_update_/_begin_/_end_) and other operations reached through the cascade have their own rules.
+        seen, todo = set(), [op]
+        while todo:
+            cur = todo.pop()
+            for callee in ctx.eff.calls.get(cur, ()):
+                if callee in seen or callee not in ms or callee == disc[op][0]:
+                    continue
+                if callee.startswith(('verify_', '_verify_', 'can_', '_update_', '_begin_', '_end_', '_setup_')) or ms[callee].is_property or callee in disc \
+                        or not callee.startswith('_'):      # (public getters validate their own arguments)
+                    continue
+                seen.add(callee)
+                todo.append(callee)
+        for h in sorted(seen):
+            for n in walk_no_nested(ms[h].node):
+                if isinstance(n, ast.Raise) or (isinstance(n, ast.Call) and isinstance(n.func, ast.Name) and n.func.id == 'warn'):
+                    bad.append(n)
         chk.ob('C08.refusals_in_verifier', f'State.{op}', not bad, ctx.loc(of, bad[0]) if bad else of.loc,
                'the operation itself neither raises nor warns: all refusals are the verifier\'s (so the query, which runs the verifier, '
                'answers for the operation, and a refused call changes nothing)', got=[stmt_text(b) for b in bad[:2]])
